@@ -257,7 +257,7 @@ static void do_parse(int o, char **t)
   char *fn = NULL; uint64_t ln = 0;
   econf_errLocation(&fn, &ln);
   if (e == ECONF_SUCCESS) printf("rc=0\n");
-  else printf("rc=%d line=%" PRIu64 "\n", e, ln);
+  else { printf("rc=%d line=%" PRIu64 " file=", e, ln); enc_path(fn); putchar('\n'); }
   free(fn);
   if (e != ECONF_SUCCESS && objs[o]) { printf("driver-error object returned with error\n"); exit(3); }
   free(path); free(content); free(dl); free(cm); free(real);
@@ -351,7 +351,7 @@ int main(int argc, char **argv)
           if (objs[d]) { econf_free(objs[d]); objs[d] = NULL; }
           e = econf_readFile(&objs[d], fn, dl, cm);
           if (e == ECONF_SUCCESS) printf("rc=0\n");
-          else { char *f2 = NULL; uint64_t ln = 0; econf_errLocation(&f2, &ln); printf("rc=%d line=%" PRIu64 "\n", e, ln); free(f2); }
+          else { char *f2 = NULL; uint64_t ln = 0; econf_errLocation(&f2, &ln); printf("rc=%d line=%" PRIu64 " file=", e, ln); enc_path(f2); putchar('\n'); free(f2); }
           free(fn);
         }
         free(dir);
@@ -371,6 +371,8 @@ int main(int argc, char **argv)
       econf_file *kf = obj(t[1]);
       econf_set_delimiter_tag(kf, (char) atoi(t[2])); econf_set_comment_tag(kf, (char) atoi(t[3]));
       printf("rc=0\n");
+    } else if (!strcmp(c, "errstring")) {
+      printf("rc=0 v="); enc(econf_errString((econf_err) atoi(t[1]))); putchar('\n');
     } else if (!strcmp(c, "free")) {
       int o = atoi(t[1]); if (objs[o]) econf_free(objs[o]); objs[o] = NULL;
       printf("rc=0\n");
